@@ -521,6 +521,18 @@ fn linearizable(case: &ConcCase, recs: &[OpRecord], final_snap: &rivia::verif::V
 
 /// All checks over one executed case
 fn judge(case: &ConcCase, out: &ConcOut, stats: &mut Stats) -> Vec<Violation> {
+    let mut v = judge_all(case, out, stats);
+    if case.property == "C03" {
+        // the C03 check's concurrent leg: only tree integrity at quiescence is its business
+        v.retain(|x| x.oracle == "integrity-at-quiescence");
+    }
+    for x in v.iter_mut() {
+        x.property = case.property.clone();
+    }
+    v
+}
+
+fn judge_all(case: &ConcCase, out: &ConcOut, stats: &mut Stats) -> Vec<Violation> {
     let mut v = out.violations.clone();
     for r in &out.records {
         if let Outcome::Panic(msg) = &r.out {
@@ -872,6 +884,7 @@ pub fn run_index(id: &str, tier: &str, seed: u64, idx: u64, stats: &mut Stats, k
     let rs = mix(&[seed, hash_str(id), hash_str(tier), prog_idx]);
     let mut prng = Rng::new(rs);
     let mut case = generate(seed, idx, &mut prng);
+    case.property = id.to_string();
     let mut srng = Rng::new(mix(&[rs, idx % 4, 0x5c4ed]));
     let pct = if srng.chance(1, 2) { Some((0..case.threads.len()).map(|_| srng.next() % 1000).collect()) } else { None };
     stats.runs += 1;
